@@ -32,6 +32,7 @@ def jobs(pid, tier):
         J.append(Job('k10_addvar', dict(N=4, L=2, via=['bdd', 'autoref']), need_outcomes=['added', 'idempotent', 'refused']))
         # other construction routes (every route gives the canonical reference)
         J.append(Job('let', dict(N=3, L=3, kinds=['rename']), need_outcomes=['returned:rename']))
+        J.append(Job('let', dict(N=3, L=3, kinds=['compose2']), need_outcomes=['returned:compose2']))
         J.append(Job('copy', dict(N=4, L=3, NT=2, extra=0, variants=['copy_bdd']), need_outcomes=['returned:copy_bdd']))
         if not q:
             J.append(Job('k7_swap', dict(N=4, L=3, x=1, K=2), need_outcomes=['swapped']))
@@ -92,7 +93,7 @@ def jobs(pid, tier):
                      ('sift', 'to_order', 'to_pairs', 'autoref_sift', 'autoref_order', 'shift')]))
         J.append(Job('sched', dict(L=4, kinds=['to_pairs', 'to_order']), need_outcomes=['done:to_pairs']))
         if not q:
-            J.append(Job('k7_swap', dict(N=5, L=3, x=0, K=3), need_outcomes=['swapped']))
+            J.append(Job('k7_swap', dict(N=5, L=2, x=0, K=2), need_outcomes=['swapped']))
             J.append(Job('k7_swap', dict(N=4, L=3, x=1, K=2, by='reversed'), need_outcomes=['swapped']))
             J.append(Job('sched', dict(L=4, kinds=['sift', 'to_order', 'to_pairs']), need_outcomes=['done:sift']))
     if pid == 'C08':
@@ -112,6 +113,11 @@ def jobs(pid, tier):
     SEQ = {'C01': ['apply_and', 'apply_implies_neg'], 'C06': ['var', 'apply_and', 'let_const', 'exist', 'add_expr'],
            'C10': ['count', 'support'], 'C05': ['to_expr', 'add_expr'], 'C03': ['exist'], 'C04': ['let_const'],
            'C02': ['var', 'apply_implies_neg']}
+    if pid in ('C18', 'C08'):
+        J.append(Job('memo_seq', dict(N=2, L=2, K=3, ops=['autoref_len', 'autoref_support', 'autoref_var_level'],
+                                      middle='swap'), need_outcomes=['done:autoref_len']))
+        J.append(Job('memo_seq', dict(N=2, L=2, K=3, ops=['autoref_len', 'autoref_var_level'], middle='gc'),
+                     need_outcomes=['done:autoref_len']))
     if pid in ('C07', 'C02', 'C10'):
         # ... and with the two levels exchanged in between (answers are by variable name)
         sw = {'C07': ['var', 'let_const', 'exist', 'support'] + ([] if q else ['apply_and']), 'C02': ['var'],
@@ -119,6 +125,10 @@ def jobs(pid, tier):
         J.append(Job('memo_seq', dict(N=2 if q else 3, L=2, K=3, ops=sw, middle='swap'), need_outcomes=['done:' + sw[0]]))
     if pid in SEQ:
         J.append(Job('memo_seq', dict(N=2, L=2, K=3, ops=SEQ[pid]), need_outcomes=['done:' + SEQ[pid][0]]))
+        # results that are *new* nodes (freed by the collection in between) need a second operand node
+        big = {'C03': ['exist'], 'C04': ['let_const'], 'C06': ['exist', 'let_const']}.get(pid)
+        if big and q:
+            J.append(Job('memo_seq', dict(N=3, L=2, K=3, ops=big), need_outcomes=['done:' + big[0]]))
         if not q:
             J.append(Job('memo_seq', dict(N=3, L=2, K=3, ops=SEQ[pid][:2]), need_outcomes=['done:' + SEQ[pid][0]]))
     # every harness starts from "an arbitrary state satisfying INV" (tables, counts, sound result
@@ -193,6 +203,8 @@ def jobs(pid, tier):
     if pid == 'C13':
         J.append(Job('image', dict(N=4, L=2, styles=['names']), need_outcomes=['returned:preimage', 'returned:image']))
         J.append(Job('image', dict(N=3, L=2, styles=['levels', 'autoref']), need_outcomes=['returned:preimage', 'returned:image']))
+        # the same call made first with the other quantifier kind (nothing remembered between calls may leak)
+        J.append(Job('image', dict(N=3, L=2, styles=['names'], warm=True), need_outcomes=['returned:preimage', 'returned:image']))
         J.append(Job('image', dict(N=4, L=4, which=['preimage'], minpairs=2, maxpairs=2, styles=['levels'],
                                qsets='values', foralls=[0], forward_only=q),
                      need_outcomes=['returned:preimage']))
@@ -207,6 +219,8 @@ def jobs(pid, tier):
         J.append(Job('k10_addvar', dict(N=4 if q else 5, L=3), need_outcomes=['added', 'idempotent', 'refused']))
         J.append(Job('k9_undeclare', dict(N=4, L=3), need_outcomes=['removed', 'nothing_removed', 'refused']))
         J.append(Job('k9_undeclare', dict(N=3 if q else 5, L=4 if q else 3), need_outcomes=['removed', 'refused']))
+        # the third operation that rewrites the order maps: the views (also the dd.autoref wrapper's)
+        J.append(Job('k7_swap', dict(N=4, L=2, x=0, K=2), need_outcomes=['swapped']))
     if pid == 'C15':
         J.append(Job('mdd_ops', dict(K=2 if q else 3, ops=['lemma', 'find_or_add', 'gc']),
                      need_outcomes=['done:lemma', 'done:find_or_add', 'done:gc']))
@@ -225,6 +239,8 @@ def jobs(pid, tier):
                      need_outcomes=['loaded']))
     if pid == 'C17':
         J.append(Job('reject', dict(N=3, L=2, fires=1), need_outcomes=['rejected:apply_unknown_op', 'rejected:expr_syntax', 'rejected:var_undeclared']))
+        # "variable still in use": the refusals of undeclare_vars (every subset of names) leave the manager as it was
+        J.append(Job('k9_undeclare', dict(N=4, L=3), need_outcomes=['removed', 'refused']))
         if not q:
             J.append(Job('reject', dict(N=4, L=2, fires=2), need_outcomes=['rejected:apply_unknown_op', 'rejected:expr_syntax']))
             J.append(Job('reject', dict(N=4, L=3, fires=1), need_outcomes=['rejected:apply_unknown_op', 'rejected:expr_syntax']))
